@@ -22,7 +22,7 @@ func checkC16(p *Prog, r *Report) {
 		r.Undecided("R0", "anchor:api.HeartbeatManagerInterface", "", "interface not found")
 		return
 	}
-	const key = "HeartbeatManager.stopHeartbeatC"
+	var key = F("HeartbeatManager.stopHeartbeatC")
 	r.Rule("R1", "the stop channel field is accessed only under its lock")
 	guard := ""
 	for _, v := range guardTable(ls) {
@@ -50,7 +50,7 @@ func checkC16(p *Prog, r *Report) {
 			if !ok || builtinName(&call.Call) != "close" {
 				return
 			}
-			if !strings.HasSuffix(Path(call.Call.Args[0]), ".stopHeartbeatC") {
+			if !strings.HasSuffix(Path(call.Call.Args[0]), "."+FN("HeartbeatManager.stopHeartbeatC")) {
 				return
 			}
 			nClose++
@@ -130,11 +130,11 @@ func checkC16(p *Prog, r *Report) {
 
 	r.Rule("R4", "the heartbeat counter is accessed only through sync/atomic")
 	for _, v := range guardTable(ls) {
-		if v.Key == "HeartbeatManager.heartBeatNum" {
+		if v.Key == F("HeartbeatManager.heartBeatNum") {
 			r.Check("R4", "field:"+v.Key, v.Atomic && len(v.Deviants) == 0, "", fmt.Sprintf("%d accesses, non-atomic: %d", v.NAcc, len(v.Deviants)))
 		}
 	}
-	if len(ls.Accesses["HeartbeatManager.heartBeatNum"]) == 0 {
+	if len(ls.Accesses[F("HeartbeatManager.heartBeatNum")]) == 0 {
 		r.Undecided("R4", "field:HeartbeatManager.heartBeatNum", "", "counter field not found")
 	}
 
@@ -346,7 +346,7 @@ func c16Loop(p *Prog, ls *Lockset, r *Report) {
 			fct, _ := constString(args[0])
 			data := Path(args[1])
 			inLoop := cyclic(setData.Block())
-			okTick = fct == "deviceDiagnosisHeartbeatData" && inLoop && strings.HasPrefix(Path(setData.Call.Value), "recv.localFeature") && strings.Contains(data, "heartbeatData()")
+			okTick = fct == "deviceDiagnosisHeartbeatData" && inLoop && strings.HasPrefix(Path(setData.Call.Value), "recv."+FN("HeartbeatManager.localFeature")) && strings.Contains(data, "heartbeatData()")
 			tickDesc = fmt.Sprintf("SetData(%s, %s) on %s inside the loop: %v", fct, data, Path(setData.Call.Value), inLoop)
 		}
 		r.Check("R6", base+"|tick", okTick, p.Pos(fn.Pos()), tickDesc)
@@ -383,7 +383,7 @@ func c16Loop(p *Prog, ls *Lockset, r *Report) {
 						}
 					}
 				}
-				okData := got["HeartbeatTimeout"] == "recv.heartBeatTimeout" && strings.HasPrefix(got["HeartbeatCounter"], "param:") && tsFromParam
+				okData := got["HeartbeatTimeout"] == "recv."+FN("HeartbeatManager.heartBeatTimeout") && strings.HasPrefix(got["HeartbeatCounter"], "param:") && tsFromParam
 				r.Check("R6", FnName(fn)+"|data", okData, p.InstrPos(a), fmt.Sprintf("heartbeat data: counter=%s timeout=%s timestamp=%s", got["HeartbeatCounter"], got["HeartbeatTimeout"], got["Timestamp"]))
 				// callers pass a fresh counter and the current time
 				for _, site := range p.Callers(fn) {
